@@ -151,6 +151,9 @@ fn replay_once(v: &Value, c: &Collector) {
             return;
         }
         ("C01", Some(Op::Feed(chunks, utf8))) if script.is_empty() => {
+            if orig_engine == "E5.stdout-broken" {
+                crate::props4::break_stdout();
+            }
             let mut o = HashSet::new();
             crate::props4::char_case(c, columns, lines, chunks, *utf8, &engine, &mut o);
             return;
@@ -169,6 +172,12 @@ fn replay_once(v: &Value, c: &Collector) {
             return;
         }
         _ => {}
+    }
+    if orig_engine == "E5.api.max-width" {
+        if let (Some(w), Some(k)) = (v["extra"]["max_width"].as_u64(), v["extra"]["edge_op"].as_u64()) {
+            crate::props4::max_width_case(c, w as u32, k as usize, &engine);
+        }
+        return;
     }
     if orig_engine == "E5.api.resize-huge" {
         if let Some(hr) = v["extra"]["huge_resize"].as_array() {
